@@ -27,7 +27,7 @@ func (p *c07) Setup(env *fw.Env) error {
 	p.N = len(p.pool) + env.Pick(1500, 120000)
 	p.RuleS = fmt.Sprintf("every repository XGo/class file and harvested test snippet (%d) as a single-file package, then generated XGo / class / Go files (syntactic generator, mostly ill-typed), token- and byte-mutated variants of corpus and generated sources (the parser's partial ASTs are compiled too), multi-file packages (2-3 files, XGo + class + Go mixes, duplicate declarations across files), each through cl.NewPackage+WriteTo or through x/build BuildFile/BuildFSDir. Oracle: no panic or runtime fatal error escapes; the cl step hook (compileStmt/compileExpr/typeLoader.load) stays below 200*(tokens)+10^5; every reported error whose text carries file:line:col names a file of the package and a line/column inside it. Non-trivial = the package reached cl.NewPackage; distinct by sources.", len(p.pool))
 	p.Assume = []string{"recover stays enabled (the production default)", "a loop inside gogen that never reaches a cl hook would only trip the wall-clock watchdog (inconclusive)", "errors without a position are ignored for the position check"}
-	p.Floor = map[string]int{"#evaluations": p.N / 2, "#nontrivial": p.N / 3, "reached-cl": p.N / 3, "outcome:ok": 300, "outcome:errors": p.N / 4, "via:x/build": p.N / 30, "with-recorder": p.N / 6, "kind:decl-shapes": p.N / 40, "kind:multi": p.N / 30, "error-positions-checked": p.N / 4, "parse-error-but-compiled": p.N / 50}
+	p.Floor = map[string]int{"#evaluations": p.N / 2, "#nontrivial": p.N / 3, "reached-cl": p.N / 3, "outcome:ok": 300, "outcome:errors": p.N / 4, "via:x/build": p.N / 30, "with-recorder": p.N / 6, "kind:decl-shapes": p.N / 40, "kind:decl-cycles": p.N / 40, "kind:multi": p.N / 30, "error-positions-checked": p.N / 4, "parse-error-but-compiled": p.N / 50}
 	return nil
 }
 
@@ -65,6 +65,9 @@ func (p *c07) Case(i int) fw.Case {
 	rec := ""
 	if r.Chance(1, 3) {
 		rec = "1"
+	}
+	if r.Chance(1, 14) {
+		return fw.Case{Kind: "decl-cycles", Aux: []string{"a.xgo", c07DeclCycles(r)}, P: map[string]string{"via": via, "rec": rec}}
 	}
 	if r.Chance(1, 12) {
 		return fw.Case{Kind: "decl-shapes", Aux: []string{"a.xgo", c07DeclShapes(r)}, P: map[string]string{"via": "cl", "rec": rec}}
@@ -255,6 +258,48 @@ func c07DeclShapes(r *fw.Rand) string {
 		b.WriteString("func f3() {\nL:\n\tvar x = 1\n\t_ = x\n\tgoto L\n}\n")
 	case 4:
 		b.WriteString("var _, _ = 1\n\nconst ()\n\ntype ()\n")
+	}
+	return b.String()
+}
+
+// c07DeclCycles draws a file whose package-level declarations (functions, methods, types, constants, variables,
+// overload declarations) refer to themselves or to each other in a cycle of length 1..3 from inside their own
+// headers: parameter, result, receiver, element, key and constraint types, array lengths, underlying types, field
+// and embedded types, constant and variable types and values. Most of these programs are invalid; every loader has
+// to report that (or accept the valid ones) without recursing for ever.
+func c07DeclCycles(r *fw.Rand) string {
+	funcT := []string{"func N(x @) {}", "func N() @ { panic(0) }", "func N(xs ...@) int { return 0 }", "func N(a [len(@)]int) {}", "func N(a []@, b map[@]int) {}",
+		"func N(a func(@) @) {}", "func N(a chan @, b *@) {}", "func N[T @]() {}", "func N(a [@]int) {}", "func N() (r @, err error) { return }",
+		"func N() { var x @; _ = x }", "func N(a struct{ f @ }) {}", "func N(a interface{ m(@) }) {}", "func N() int { return @ }", "func (t @) N() {}", "func (t *@) N(x @) @ { return x }", "func (t T0) N(x @) {}"}
+	typeT := []string{"type N @", "type N []@", "type N struct{ x @ }", "type N struct{ @ }", "type N struct{ *@ }", "type N [len(@)]int", "type N [@]int", "type N interface{ m(@) @ }", "type N interface{ @ }",
+		"type N = @", "type N func(@) @", "type N map[@]@", "type N *@", "type N chan @", "type N [unsafe.Sizeof(@{})]byte", "type N[T @] struct{}", "type N struct{ x [1]@ }", "type N struct{ f func() @; g []@ }"}
+	constT := []string{"const N = @", "const N = len(@)", "const N @ = 1", "const N = @ + 1", "const N = unsafe.Sizeof(@)", "const (\n\tN = iota + @\n\tN2\n)", "const N = @(1)", "const N, N3 = @, 2"}
+	varT := []string{"var N = @", "var N @", "var N = @()", "var N = [@]int{}", "var N, N4 = @, 1", "var N = func() int { return @ }()", "var N = &@", "var N = @{}", "var N = []@{}", "var N = len(@)", "var N = {\"a\": @}", "var N = [x for x <- @]", "var N = @.f"}
+	ovlT := []string{"func N = (@)", "func N = (@; @)", "func N = (\n\t@\n\tfunc(a int) {}\n)", "func (T0).N = (@)", "func (T0).N = ((T0).@)"}
+	kinds := [][]string{funcT, funcT, typeT, typeT, constT, varT, varT, ovlT}
+	names := []string{"f", "T", "c", "v", "g", "U", "d", "w"}
+	n := r.Range(1, 3)
+	perm := r.Perm(len(names))
+	var use []string
+	for i := 0; i < n; i++ {
+		use = append(use, names[perm[i]])
+	}
+	var b strings.Builder
+	b.WriteString("import \"unsafe\"\n\nvar _ = unsafe.Sizeof(0)\n\ntype T0 struct{ n int }\n\n")
+	for i, name := range use {
+		ref := use[(i+1)%n]
+		if r.Chance(1, 6) {
+			ref = name
+		}
+		t := fw.Pick(r, fw.Pick(r, kinds))
+		t = strings.ReplaceAll(t, "N", name)
+		t = strings.ReplaceAll(t, "@", ref)
+		b.WriteString(t + "\n\n")
+	}
+	if r.Bool() {
+		fmt.Fprintf(&b, "var _ = %s\n", use[0])
+	} else if r.Bool() {
+		fmt.Fprintf(&b, "echo %s\n", use[0])
 	}
 	return b.String()
 }
